@@ -26,3 +26,11 @@ prop("C10", ["contracts.c10_network"],
      assumed=["A5 callbacks do not mutate the subscription table while being dispatched and do not raise (unknown-prefix loop summary)",
               "python-can Bus.send / send_periodic receive the Message built by the library (env/stubs.py BusStub)"],
      not_decided=["callbacks that mutate the subscription table during dispatch; real thread interleavings of notify and subscribe"])
+
+prop("C11", ["contracts.c11_nmt"],
+     ["OnCommand", "MasterSendCommand", "SlaveSendCommand", "StateSetter", "StateGetter", "OnHeartbeat",
+      "WaitForHeartbeat", "WaitForBootup", "AddHeartbeatCallback", "NmtTables"],
+     assumed=["Condition.wait is a havoc point: on wake-up either nothing changed or on_heartbeat's post-condition holds (A4)",
+              "Network.send_message hands the frame to the bus (env/net.py)", "A5 heartbeat callbacks do not re-enter / raise"],
+     not_decided=["that a wait wakes up in time (real time / threads)",
+                  "the library's extra SLEEP/STANDBY commands 80/96 (not in CiA 301) are left unconstrained"])
